@@ -625,4 +625,594 @@ theorem canonicalRaw_eq (tbl : Table) : ∀ (f idx : Nat) (b : Bytes),
         | error e => rfl
         | ok fs => simp [Except.map, Tree.payload, payloadFields_eq]
 
+/-! ## Nesting depth is bounded by the length of the buffer -/
+
+theorem ValRel.mono {R R' : Nat → List (Nat × List Tree) → Bytes → Prop} {kind : Kind} {t : Tree} {v : Bytes}
+    (h : ValRel R kind t v) (hR : ∀ k fs, R k fs v → R' k fs v) : ValRel R' kind t v := by
+  cases kind with
+  | msg k => obtain ⟨fs, ht, hr⟩ := h; exact ⟨fs, ht, hR k fs hr⟩
+  | varint | fixed64 | fixed32 | bytes => exact h
+
+theorem SerMsg.succ (tbl : Table) : ∀ (d idx : Nat) (fs : List (Nat × List Tree)) (b : Bytes),
+    SerMsg tbl d idx fs b → SerMsg tbl (d + 1) idx fs b := by
+  intro d
+  induction d with
+  | zero => intro idx fs b h; exact h.elim
+  | succ d ih =>
+    intro idx fs b h
+    obtain ⟨m, cs, hm, hp3, hcs, hb, hfs, hmulti⟩ := h
+    refine ⟨m, cs, hm, hp3, ?_, hb, hfs, hmulti⟩
+    intro c hc
+    exact ⟨(hcs c hc).tlv, fun fd hfd p hp => ((hcs c hc).vals fd hfd p hp).mono (fun k fs' => ih k fs' p.2)⟩
+
+theorem SerMsg.mono (tbl : Table) {d d' idx : Nat} {fs : List (Nat × List Tree)} {b : Bytes}
+    (h : SerMsg tbl d idx fs b) (hd : d ≤ d') : SerMsg tbl d' idx fs b := by
+  induction hd with
+  | refl => exact h
+  | step _ ih => exact SerMsg.succ tbl _ idx fs b ih
+
+theorem mem_chunksBytes_length {cs : List Chunk} {c : Chunk} (h : c ∈ cs) :
+    c.bytes.length ≤ (chunksBytes cs).length := by
+  induction cs with
+  | nil => simp at h
+  | cons c' cs ih =>
+    simp only [chunksBytes, List.map_cons, List.flatten_cons, List.length_append]
+    rcases List.mem_cons.mp h with h | h
+    · subst h; omega
+    · have := ih h; simp only [chunksBytes] at this; omega
+
+/-- the payload of a LEN record is at least two bytes shorter than the record -/
+theorem RawTLV.len_payload_short {m : MsgSchema} {num : Nat} {vals : List Bytes} {bs : Bytes}
+    (h : RawTLV m num vals bs) {fd : FieldSchema} (hfd : m.getField num = some fd) (hw : fd.kind.wire = .len) :
+    ∀ v ∈ vals, v.length + 2 ≤ bs.length := by
+  cases h with
+  | single hf _ hw' hnl _ _ =>
+    rw [hfd] at hf; injection hf with hf; subst hf
+    exact absurd (hw'.symm.trans hw) hnl
+  | packed hf _ hw' hnl _ _ _ =>
+    rw [hfd] at hf; injection hf with hf; subst hf
+    exact absurd (hw'.symm.trans hw) hnl
+  | len hf _ _ htag hlen =>
+    intro v hv
+    simp at hv; subst hv
+    have h1 := List.length_pos_iff.mpr htag.ne_nil
+    have h2 : 0 < _ := List.length_pos_iff.mpr (by obtain ⟨_, k, _, hk, _⟩ := hlen; exact hk.ne_nil)
+    simp only [List.length_append]; omega
+
+/-- a serialisation of any depth is a serialisation of depth at most `length + 1` -/
+theorem SerMsg.depth_le_length (tbl : Table) : ∀ (d idx : Nat) (fs : List (Nat × List Tree)) (b : Bytes),
+    SerMsg tbl d idx fs b → SerMsg tbl (b.length + 1) idx fs b := by
+  intro d
+  induction d with
+  | zero => intro idx fs b h; exact h.elim
+  | succ d ih =>
+    intro idx fs b h
+    obtain ⟨m, cs, hm, hp3, hcs, hb, hfs, hmulti⟩ := h
+    refine ⟨m, cs, hm, hp3, ?_, hb, hfs, hmulti⟩
+    intro c hc
+    refine ⟨(hcs c hc).tlv, fun fd hfd p hp => ?_⟩
+    have hrel := (hcs c hc).vals fd hfd p hp
+    cases hk : fd.kind with
+    | msg k =>
+      rw [hk] at hrel
+      obtain ⟨fs', ht, hr⟩ := hrel
+      have hshort := (hcs c hc).tlv.len_payload_short hfd (by rw [hk]; rfl) p.2
+        (List.mem_map.mpr ⟨p, hp, rfl⟩)
+      have hcb := mem_chunksBytes_length hc
+      exact ⟨fs', ht, (ih k fs' p.2 hr).mono tbl (by rw [hb]; omega)⟩
+    | varint | fixed64 | fixed32 | bytes => rw [hk] at hrel; exact hrel
+
+/-- **Canonicity** (entry point as the driver runs it): every valid serialisation `b` of the value `fs`
+normalises to the canonical encoding of `fs`. -/
+theorem canonical_of_ser (tbl : Table) (d idx : Nat) (fs : List (Nat × List Tree)) (b : Bytes)
+    (h : SerMsg tbl d idx fs b) : canonical tbl idx b = .ok (payloadFields fs) := by
+  have h' := SerMsg.depth_le_length tbl d idx fs b h
+  simp [canonical, canonicalRaw_eq, decode_of_ser tbl _ idx fs b h' (b.length + 1) (Nat.le_refl _),
+    Except.map, Tree.payload]
+
+/-! ## Grouping a record sequence whose field numbers ascend -/
+
+theorem push_append_new {α : Type} (acc : FieldMap α) (k : Nat) (vs : List α) (h : ∀ q ∈ acc, q.1 < k) :
+    acc.push k vs = acc ++ [(k, vs)] := by
+  induction acc with
+  | nil => rfl
+  | cons q rest ih =>
+    obtain ⟨k', vs'⟩ := q
+    have hk : k' < k := h (k', vs') (by simp)
+    simp only [FieldMap.push]
+    rw [if_neg (by omega), if_neg (by omega), ih (fun q hq => h q (by simp [hq]))]
+    rfl
+
+theorem push_append_same {α : Type} (acc : FieldMap α) (k : Nat) (old vs : List α) (h : ∀ q ∈ acc, q.1 < k) :
+    (acc ++ [(k, old)]).push k vs = acc ++ [(k, old ++ vs)] := by
+  induction acc with
+  | nil => simp [FieldMap.push]
+  | cons q rest ih =>
+    obtain ⟨k', vs'⟩ := q
+    have hk : k' < k := h (k', vs') (by simp)
+    simp only [List.cons_append, FieldMap.push]
+    rw [if_neg (by omega), if_neg (by omega), ih (fun q hq => h q (by simp [hq]))]
+
+theorem groupFrom_same_aux (k : Nat) : ∀ (cs : List Chunk), (∀ c ∈ cs, c.num = k) →
+    ∀ (acc : FieldMap (Tree × Bytes)) (old : List (Tree × Bytes)), (∀ q ∈ acc, q.1 < k) →
+    groupFrom cs (acc ++ [(k, old)]) = acc ++ [(k, old ++ cs.flatMap (·.vals))] := by
+  intro cs
+  induction cs with
+  | nil => intro _ acc old _; simp [groupFrom]
+  | cons c cs ih =>
+    intro hcs acc old hacc
+    have hc : c.num = k := hcs c (by simp)
+    simp only [groupFrom, List.foldl_cons, hc, push_append_same acc k old c.vals hacc]
+    have := ih (fun c' hc' => hcs c' (by simp [hc'])) acc (old ++ c.vals) hacc
+    simp only [groupFrom] at this
+    rw [this]; simp
+
+theorem groupFrom_same (k : Nat) (c : Chunk) (cs : List Chunk) (hcs : ∀ c' ∈ c :: cs, c'.num = k)
+    (acc : FieldMap (Tree × Bytes)) (hacc : ∀ q ∈ acc, q.1 < k) :
+    groupFrom (c :: cs) acc = acc ++ [(k, (c :: cs).flatMap (·.vals))] := by
+  have hc : c.num = k := hcs c (by simp)
+  simp only [groupFrom, List.foldl_cons, hc, push_append_new acc k c.vals hacc]
+  have := groupFrom_same_aux k cs (fun c' hc' => hcs c' (by simp [hc'])) acc c.vals hacc
+  simp only [groupFrom] at this
+  rw [this]; simp
+
+theorem groupFrom_append (cs cs' : List Chunk) (acc : FieldMap (Tree × Bytes)) :
+    groupFrom (cs ++ cs') acc = groupFrom cs' (groupFrom cs acc) := by
+  simp [groupFrom, List.foldl_append]
+
+/-- records produced field by field, in ascending field order, group back to the fields -/
+theorem groupFrom_ascending (chunksOf : Nat × List Tree → List Chunk) (pair : Tree → Tree × Bytes) :
+    ∀ (fs : List (Nat × List Tree)) (acc : FieldMap (Tree × Bytes)),
+    (fs.map (·.1)).Pairwise (· < ·) →
+    (∀ q ∈ acc, ∀ p ∈ fs, q.1 < p.1) →
+    (∀ p ∈ fs, chunksOf p ≠ [] ∧ (∀ c ∈ chunksOf p, c.num = p.1) ∧
+        (chunksOf p).flatMap (·.vals) = p.2.map pair) →
+    groupFrom (fs.flatMap chunksOf) acc = acc ++ fs.map (fun p => (p.1, p.2.map pair)) := by
+  intro fs
+  induction fs with
+  | nil => intro acc _ _ _; simp [groupFrom]
+  | cons p fs ih =>
+    intro acc hpw hacc hch
+    obtain ⟨hne, hnum, hvals⟩ := hch p (by simp)
+    simp only [List.flatMap_cons, groupFrom_append]
+    obtain ⟨c, cs, hc⟩ : ∃ c cs, chunksOf p = c :: cs := by
+      cases h : chunksOf p with
+      | nil => exact absurd h hne
+      | cons c cs => exact ⟨c, cs, rfl⟩
+    rw [hc, groupFrom_same p.1 c cs (by rw [← hc]; exact hnum) acc (fun q hq => hacc q hq p (by simp)),
+      ← hc, hvals]
+    simp only [List.map_cons] at hpw
+    rw [List.pairwise_cons] at hpw
+    rw [ih _ hpw.2 ?_ (fun p' hp' => hch p' (by simp [hp']))]
+    · simp
+    · intro q hq p' hp'
+      rcases List.mem_append.mp hq with hq | hq
+      · exact hacc q hq p' (by simp [hp'])
+      · simp at hq; subst hq
+        exact hpw.1 p'.1 (List.mem_map.mpr ⟨p', hp', rfl⟩)
+
+/-! ## Well-formed generic values, and their canonical encoding as a serialisation -/
+
+/-- what a value of a field of kind `kind` must look like; `W k fs`: "`fs` is a well-formed message value of
+schema `k`". Sizes are bounded by what a `u32` length prefix can express. -/
+def ValWF (W : Nat → List (Nat × List Tree) → Prop) : Kind → Tree → Prop
+  | .msg k, t => ∃ fs, t = .node fs ∧ W k fs ∧ (payloadFields fs).length < 2 ^ 32
+  | .varint, t => ∃ n, n < 2 ^ 64 ∧ t = .leaf .varint (writeVarint n)
+  | .fixed64, t => ∃ raw, raw.length = 8 ∧ t = .leaf .i64 raw
+  | .fixed32, t => ∃ raw, raw.length = 4 ∧ t = .leaf .i32 raw
+  | .bytes, t => ∃ raw, raw.length < 2 ^ 32 ∧ t = .leaf .len raw
+
+/-- `WF tbl d idx fs`: `fs` is a well-formed value (nesting depth ≤ `d`) of message `tbl[idx]`: field numbers strictly
+ascending and declared, every present field has at least one value, only repeated fields have several, every value
+has the shape of its field's kind, the schema passes the canonical-encoding restrictions, sizes fit `u32`. -/
+def WF (tbl : Table) : Nat → Nat → List (Nat × List Tree) → Prop
+  | 0, _, _ => False
+  | d + 1, idx, fs =>
+    ∃ m, tbl[idx]? = some m ∧ m.proto3 = true ∧ (fs.map (·.1)).Pairwise (· < ·) ∧
+      ∀ p ∈ fs, ∃ fd, m.getField p.1 = some fd ∧ FieldOk fd ∧ p.1 * 8 + 7 < 2 ^ 32 ∧ p.2 ≠ [] ∧
+        (1 < p.2.length → fd.repeated = true) ∧ (∀ v ∈ p.2, ValWF (WF tbl d) fd.kind v) ∧
+        (fd.kind.wire ≠ .len → (payloadVals p.2).flatten.length < 2 ^ 32)
+
+/-- the records `canonical_raw` writes for one field -/
+def canonChunks (p : Nat × List Tree) : List Chunk :=
+  match p.2 with
+  | [] => []
+  | v :: rest =>
+    if v.wire = .len then
+      (v :: rest).map (fun t => ⟨p.1, [(t, t.payload)], writeTag p.1 .len ++ writeLen t.payload⟩)
+    else
+      match rest with
+      | [] => [⟨p.1, [(v, v.payload)], writeTag p.1 v.wire ++ v.payload⟩]
+      | _ :: _ => [⟨p.1, (v :: rest).map (fun t => (t, t.payload)),
+                    writeTag p.1 .len ++ writeLen ((v :: rest).map Tree.payload).flatten⟩]
+
+theorem canonChunks_bytes (p : Nat × List Tree) :
+    chunksBytes (canonChunks p) = encodeField p.1 p.2 (payloadVals p.2) := by
+  obtain ⟨num, vs⟩ := p
+  cases vs with
+  | nil => rfl
+  | cons v rest =>
+    simp only [canonChunks, encodeField, payloadVals_eq_map]
+    split
+    · rename_i hw
+      simp only [hw, emitField, chunksBytes, List.map_map, List.flatMap_def]
+      rfl
+    · rename_i hw
+      cases rest with
+      | nil =>
+        cases hv : v.wire <;> simp_all [emitField, chunksBytes]
+      | cons v2 rest =>
+        cases hv : v.wire <;> simp_all [emitField, chunksBytes]
+
+theorem canonChunks_props (p : Nat × List Tree) (hne : p.2 ≠ []) :
+    canonChunks p ≠ [] ∧ (∀ c ∈ canonChunks p, c.num = p.1) ∧
+      (canonChunks p).flatMap (·.vals) = p.2.map (fun t => (t, t.payload)) := by
+  obtain ⟨num, vs⟩ := p
+  cases vs with
+  | nil => exact absurd rfl hne
+  | cons v rest =>
+    simp only [canonChunks]
+    split
+    · refine ⟨by simp, ?_, ?_⟩
+      · intro c hc; simp at hc; rcases hc with rfl | ⟨t, _, rfl⟩ <;> rfl
+      · simp only [List.flatMap_def, List.map_map, Function.comp_def]
+        induction (v :: rest) with
+        | nil => rfl
+        | cons a as ih => simp [ih]
+    · cases rest with
+      | nil => simp
+      | cons v2 rest => simp
+
+theorem payloadFields_flatMap (fs : List (Nat × List Tree)) :
+    payloadFields fs = chunksBytes (fs.flatMap canonChunks) := by
+  induction fs with
+  | nil => rfl
+  | cons p fs ih =>
+    obtain ⟨n, vs⟩ := p
+    have := canonChunks_bytes (n, vs)
+    simp only [payloadFields, List.flatMap_cons, ih, chunksBytes, List.map_append, List.flatten_append] at this ⊢
+    rw [this]
+
+theorem writeTag_enc {num : Nat} {w : Wire} (h : num * 8 + 7 < 2 ^ 32) : EncTag num w (writeTag num w) := by
+  have : w.raw ≤ 7 := by cases w <;> simp [Wire.raw]
+  exact ⟨by omega, writeVarint_enc (by omega)⟩
+
+theorem writeLen_enc {v : Bytes} (h : v.length < 2 ^ 32) : EncLen v.length (writeVarint v.length) :=
+  ⟨h, writeVarint_enc (by omega)⟩
+
+theorem serScalar_of_valWF {W : Nat → List (Nat × List Tree) → Prop} {kind : Kind} {t : Tree}
+    (h : ValWF W kind t) (hw : kind.wire ≠ .len) :
+    t = .leaf kind.wire t.payload ∧ SerScalar kind.wire t.payload t.payload := by
+  cases kind with
+  | msg k => exact absurd rfl hw
+  | bytes => exact absurd rfl hw
+  | varint => obtain ⟨n, hn, rfl⟩ := h; exact ⟨rfl, n, hn, rfl, writeVarint_enc hn⟩
+  | fixed64 => obtain ⟨raw, hr, rfl⟩ := h; exact ⟨rfl, hr, rfl⟩
+  | fixed32 => obtain ⟨raw, hr, rfl⟩ := h; exact ⟨rfl, hr, rfl⟩
+
+theorem valRel_of_valWF {W : Nat → List (Nat × List Tree) → Prop}
+    {R : Nat → List (Nat × List Tree) → Bytes → Prop} {kind : Kind} {t : Tree}
+    (h : ValWF W kind t) (hWR : ∀ k fs, W k fs → R k fs (payloadFields fs)) :
+    ValRel R kind t t.payload := by
+  cases kind with
+  | msg k => obtain ⟨fs, rfl, hw, _⟩ := h; exact ⟨fs, rfl, hWR k fs hw⟩
+  | bytes => obtain ⟨raw, _, rfl⟩ := h; rfl
+  | varint => obtain ⟨n, _, rfl⟩ := h; rfl
+  | fixed64 => obtain ⟨raw, _, rfl⟩ := h; rfl
+  | fixed32 => obtain ⟨raw, _, rfl⟩ := h; rfl
+
+theorem valWF_wire {W : Nat → List (Nat × List Tree) → Prop} {kind : Kind} {t : Tree}
+    (h : ValWF W kind t) : t.wire = kind.wire := by
+  cases kind with
+  | msg k => obtain ⟨fs, rfl, _⟩ := h; rfl
+  | bytes => obtain ⟨raw, _, rfl⟩ := h; rfl
+  | varint => obtain ⟨n, _, rfl⟩ := h; rfl
+  | fixed64 => obtain ⟨raw, _, rfl⟩ := h; rfl
+  | fixed32 => obtain ⟨raw, _, rfl⟩ := h; rfl
+
+theorem valWF_len_size {W : Nat → List (Nat × List Tree) → Prop} {kind : Kind} {t : Tree}
+    (h : ValWF W kind t) (hw : kind.wire = .len) : t.payload.length < 2 ^ 32 := by
+  cases kind with
+  | msg k => obtain ⟨fs, rfl, _, hs⟩ := h; exact hs
+  | bytes => obtain ⟨raw, hr, rfl⟩ := h; exact hr
+  | varint | fixed64 | fixed32 => simp [Kind.wire] at hw
+
+theorem canonChunks_ok {W : Nat → List (Nat × List Tree) → Prop}
+    {R : Nat → List (Nat × List Tree) → Bytes → Prop} {m : MsgSchema} {p : Nat × List Tree} {fd : FieldSchema}
+    (hfd : m.getField p.1 = some fd) (hok : FieldOk fd) (hsz : p.1 * 8 + 7 < 2 ^ 32)
+    (hvals : ∀ v ∈ p.2, ValWF W fd.kind v)
+    (hpk : fd.kind.wire ≠ .len → (payloadVals p.2).flatten.length < 2 ^ 32)
+    (hWR : ∀ k fs, W k fs → R k fs (payloadFields fs)) :
+    ∀ c ∈ canonChunks p, ChunkOk R m c := by
+  obtain ⟨num, vs⟩ := p
+  cases vs with
+  | nil => intro c hc; simp [canonChunks] at hc
+  | cons v rest =>
+    have hvw : v.wire = fd.kind.wire := valWF_wire (hvals v (by simp))
+    intro c hc
+    simp only [canonChunks] at hc
+    split at hc
+    · -- LEN field: one record per value
+      rename_i hlen
+      obtain ⟨t, ht, rfl⟩ := List.mem_map.mp hc
+      have htv := hvals t ht
+      have hkl : fd.kind.wire = .len := hvw.symm.trans hlen
+      refine ⟨?_, ?_⟩
+      · simp only [List.map_cons, List.map_nil, writeLen]
+        exact RawTLV.len hfd hok hkl (writeTag_enc hsz) (writeLen_enc (valWF_len_size htv hkl))
+      · intro fd' hfd' q hq
+        rw [hfd] at hfd'; injection hfd' with hfd'; subst hfd'
+        simp at hq; subst hq
+        exact valRel_of_valWF htv hWR
+    · rename_i hnl
+      have hknl : fd.kind.wire ≠ .len := fun h => hnl (hvw.trans h)
+      cases rest with
+      | nil =>
+        simp at hc; subst hc
+        have htv := hvals v (by simp)
+        obtain ⟨_, hser⟩ := serScalar_of_valWF htv hknl
+        refine ⟨?_, ?_⟩
+        · simp only [List.map_cons, List.map_nil]
+          rw [hvw]
+          exact RawTLV.single hfd hok rfl hknl (writeTag_enc hsz) hser
+        · intro fd' hfd' q hq
+          rw [hfd] at hfd'; injection hfd' with hfd'; subst hfd'
+          simp at hq; subst hq
+          exact valRel_of_valWF htv hWR
+      | cons v2 rest =>
+        have hc := List.mem_singleton.mp hc; subst hc
+        refine ⟨?_, ?_⟩
+        · have hall : ∀ q ∈ (v :: v2 :: rest).map (fun t => (t.payload, t.payload)),
+              SerScalar fd.kind.wire q.1 q.2 := by
+            intro q hq
+            obtain ⟨t, ht, rfl⟩ := List.mem_map.mp hq
+            exact (serScalar_of_valWF (hvals t ht) hknl).2
+          have hsize := hpk hknl
+          rw [payloadVals_eq_map] at hsize
+          have := RawTLV.packed (m := m) (num := num) (tg := writeTag num .len)
+            (lb := writeVarint ((v :: v2 :: rest).map Tree.payload).flatten.length)
+            hfd hok rfl hknl (writeTag_enc hsz) hall
+            (by simp only [List.map_map, Function.comp_def]; exact writeLen_enc hsize)
+          simp only [List.map_map, Function.comp_def, writeLen] at this ⊢
+          exact this
+        · intro fd' hfd' q hq
+          rw [hfd] at hfd'; injection hfd' with hfd'; subst hfd'
+          obtain ⟨t, ht, rfl⟩ := List.mem_map.mp hq
+          exact valRel_of_valWF (hvals t ht) hWR
+
+/-- **The canonical encoding of a well-formed value is one of its serialisations.** -/
+theorem wf_ser (tbl : Table) : ∀ (d idx : Nat) (fs : List (Nat × List Tree)),
+    WF tbl d idx fs → SerMsg tbl d idx fs (payloadFields fs) := by
+  intro d
+  induction d with
+  | zero => intro idx fs h; exact h.elim
+  | succ d ih =>
+    intro idx fs h
+    obtain ⟨m, hm, hp3, hpw, hall⟩ := h
+    have hgroup : groupPairs (fs.flatMap canonChunks) = fs.map (fun p => (p.1, p.2.map (fun t => (t, t.payload)))) := by
+      have := groupFrom_ascending canonChunks (fun t => (t, t.payload)) fs [] hpw (by simp)
+        (fun p hp => by
+          obtain ⟨fd, _, _, _, hne, _⟩ := hall p hp
+          exact canonChunks_props p hne)
+      simpa [groupPairs] using this
+    refine ⟨m, fs.flatMap canonChunks, hm, hp3, ?_, payloadFields_flatMap fs, ?_, ?_⟩
+    · intro c hc
+      obtain ⟨p, hp, hcp⟩ := List.mem_flatMap.mp hc
+      obtain ⟨fd, hfd, hok, hsz, _, _, hvals, hpk⟩ := hall p hp
+      exact canonChunks_ok hfd hok hsz hvals hpk (fun k fs' hw => ih k fs' hw) c hcp
+    · rw [hgroup]
+      simp [mapVals, List.map_map, Function.comp_def]
+    · rw [hgroup]
+      intro q hq hlen fd hfd
+      obtain ⟨p, hp, rfl⟩ := List.mem_map.mp hq
+      obtain ⟨fd', hfd', _, _, _, hmulti, _⟩ := hall p hp
+      simp only at hfd
+      rw [hfd'] at hfd; injection hfd with hfd; subst hfd
+      exact hmulti (by simpa using hlen)
+
+/-- **Lossless**: parsing the canonical encoding of a well-formed value gives the value back. -/
+theorem decode_encode (tbl : Table) (d idx : Nat) (fs : List (Nat × List Tree)) (h : WF tbl d idx fs)
+    (fuel : Nat) (hf : d ≤ fuel) : decode tbl fuel idx (payloadFields fs) = .ok (.node fs) :=
+  decode_of_ser tbl d idx fs _ (wf_ser tbl d idx fs h) fuel hf
+
+/-! ## Order of records of different fields is irrelevant -/
+
+theorem push_comm {α : Type} (m : FieldMap α) (a b : Nat) (x y : List α) (h : a ≠ b) :
+    (m.push a x).push b y = (m.push b y).push a x := by
+  induction m with
+  | nil =>
+    rcases Nat.lt_or_gt_of_ne h with h1 | h1
+    · have h2 : ¬ b < a := by omega
+      have h3 : ¬ b = a := by omega
+      simp [FieldMap.push, h1, h2, h3]
+    · have h2 : ¬ a < b := by omega
+      have h3 : ¬ a = b := by omega
+      simp [FieldMap.push, h1, h2, h3]
+  | cons q rest ih =>
+    obtain ⟨k, v⟩ := q
+    rcases Nat.lt_trichotomy a k with ha | ha | ha <;> rcases Nat.lt_trichotomy b k with hb | hb | hb
+    all_goals (
+      rcases Nat.lt_or_gt_of_ne h with hab | hab <;>
+      simp [FieldMap.push, *, Nat.lt_asymm, Nat.ne_of_gt, Nat.ne_of_lt, Nat.lt_irrefl] <;>
+      first | omega | skip)
+
+/-- swapping two adjacent records of different fields does not change what the sequence denotes -/
+theorem groupPairs_swap (xs ys : List Chunk) (a b : Chunk) (h : a.num ≠ b.num) :
+    groupPairs (xs ++ a :: b :: ys) = groupPairs (xs ++ b :: a :: ys) := by
+  simp only [groupPairs, groupFrom, List.foldl_append, List.foldl_cons]
+  rw [push_comm _ a.num b.num a.vals b.vals h]
+
+/-- splitting a packed record into two adjacent packed records (or merging them) does not change it either -/
+theorem groupPairs_split (xs ys : List Chunk) (n : Nat) (v1 v2 : List (Tree × Bytes)) (b1 b2 b : Bytes) :
+    groupPairs (xs ++ ⟨n, v1, b1⟩ :: ⟨n, v2, b2⟩ :: ys) = groupPairs (xs ++ ⟨n, v1 ++ v2, b⟩ :: ys) := by
+  simp only [groupPairs, groupFrom, List.foldl_append, List.foldl_cons]
+  congr 1
+  generalize List.foldl (fun a c => FieldMap.push a c.num c.vals) [] xs = m
+  induction m with
+  | nil => simp [FieldMap.push]
+  | cons q rest ih =>
+    obtain ⟨k, v⟩ := q
+    rcases Nat.lt_trichotomy n k with hn | hn | hn
+    · simp [FieldMap.push, hn]
+    · subst hn; simp [FieldMap.push]
+    · have h1 : ¬ n < k := by omega
+      have h2 : ¬ n = k := by omega
+      simp [FieldMap.push, h1, h2, ih]
+
+/-! ## Rejection -/
+
+/-- `BadHead m r e`: the buffer `r` starts with a record that `read_fields` refuses with error `e`:
+a tag with wire type 3, 4, 6 or 7; an unknown field number; a map field; a field with implicit presence; a wire type
+that is neither the field's nor LEN. -/
+inductive BadHead (m : MsgSchema) : Bytes → Err → Prop
+  | wireType {tag : Nat} {tg tail : Bytes} : EncVarint tag tg → tag < 2 ^ 32 → Wire.fromTag tag = none →
+      BadHead m (tg ++ tail) .wireType
+  | unknownField {tag : Nat} {w : Wire} {tg tail : Bytes} : EncVarint tag tg → tag < 2 ^ 32 →
+      Wire.fromTag tag = some w → m.getField (tag / 8) = none → BadHead m (tg ++ tail) .unknownField
+  | map {tag : Nat} {w : Wire} {fd : FieldSchema} {tg tail : Bytes} : EncVarint tag tg → tag < 2 ^ 32 →
+      Wire.fromTag tag = some w → m.getField (tag / 8) = some fd → fd.isMap = true → BadHead m (tg ++ tail) .map
+  | implicitPresence {tag : Nat} {w : Wire} {fd : FieldSchema} {tg tail : Bytes} : EncVarint tag tg →
+      tag < 2 ^ 32 → Wire.fromTag tag = some w → m.getField (tag / 8) = some fd → fd.isMap = false →
+      fd.repeated = false → fd.explicitPresence = false → BadHead m (tg ++ tail) .implicitPresence
+  | unexpectedWire {tag : Nat} {w : Wire} {fd : FieldSchema} {tg tail : Bytes} : EncVarint tag tg →
+      tag < 2 ^ 32 → Wire.fromTag tag = some w → m.getField (tag / 8) = some fd → FieldOk fd →
+      w ≠ fd.kind.wire → w ≠ .len → BadHead m (tg ++ tail) .unexpectedWire
+
+theorem readFieldsLoop_badHead {m : MsgSchema} {r : Bytes} {e : Err} (h : BadHead m r e)
+    (fuel : Nat) (acc : FieldMap Bytes) : readFieldsLoop m (fuel + 1) r acc = .error e := by
+  have hcons : ∀ {n : Nat} {tg tail : Bytes}, EncVarint n tg → ∃ x xs, tg ++ tail = x :: xs := by
+    intro n tg tail ⟨k, _, hk, _⟩
+    cases tg with
+    | nil => exact absurd rfl hk.ne_nil
+    | cons x xs => exact ⟨x, xs ++ tail, rfl⟩
+  cases h with
+  | wireType he hlt hw =>
+    obtain ⟨x, xs, hx⟩ := hcons he
+    rw [hx, readFieldsLoop, ← hx]; simp [readVarint32_enc he hlt, hw]
+  | unknownField he hlt hw hf =>
+    obtain ⟨x, xs, hx⟩ := hcons he
+    rw [hx, readFieldsLoop, ← hx]; simp [readVarint32_enc he hlt, hw, hf]
+  | map he hlt hw hf hm =>
+    obtain ⟨x, xs, hx⟩ := hcons he
+    rw [hx, readFieldsLoop, ← hx]; simp [readVarint32_enc he hlt, hw, hf, hm]
+  | implicitPresence he hlt hw hf hm hr hp =>
+    obtain ⟨x, xs, hx⟩ := hcons he
+    rw [hx, readFieldsLoop, ← hx]; simp [readVarint32_enc he hlt, hw, hf, hm, hr, hp]
+  | unexpectedWire he hlt hw hf hok hne hnl =>
+    obtain ⟨x, xs, hx⟩ := hcons he
+    rw [hx, readFieldsLoop, ← hx]
+    simp only [readVarint32_enc he hlt, hw, hf, hok.1]
+    rcases hok.2 with h2 | h2 <;> simp [h2, readField, hne, hnl]
+
+theorem BadHead.ne_nil {m r e} (h : BadHead m r e) : r ≠ [] := by
+  have : ∀ {n : Nat} {tg tail : Bytes}, EncVarint n tg → tg ++ tail ≠ [] := by
+    intro n tg tail ⟨k, _, hk, _⟩ h; exact hk.ne_nil (List.append_eq_nil_iff.mp h).1
+  cases h <;> exact this ‹_›
+
+theorem readFieldsLoop_prefix {m : MsgSchema} : ∀ (cs : List Chunk) (fuel : Nat) (acc : FieldMap Bytes) (rest : Bytes),
+    (∀ c ∈ cs, RawTLV m c.num (c.vals.map (·.2)) c.bytes) →
+    readFieldsLoop m (cs.length + fuel) (chunksBytes cs ++ rest) acc
+      = readFieldsLoop m fuel rest (cs.foldl (fun a c => a.push c.num (c.vals.map (·.2))) acc) := by
+  intro cs
+  induction cs with
+  | nil => intro fuel acc rest _; simp [chunksBytes]
+  | cons c cs ih =>
+    intro fuel acc rest hall
+    have hc := hall c (by simp)
+    simp only [chunksBytes, List.map_cons, List.flatten_cons, List.length_cons, List.append_assoc,
+      List.foldl_cons]
+    rw [show cs.length + 1 + fuel = (cs.length + fuel) + 1 by omega, readFieldsLoop_tlv hc]
+    exact ih fuel _ rest (fun c' hc' => hall c' (by simp [hc']))
+
+theorem chunks_length_le {m : MsgSchema} : ∀ (cs : List Chunk),
+    (∀ c ∈ cs, RawTLV m c.num (c.vals.map (·.2)) c.bytes) → cs.length ≤ (chunksBytes cs).length := by
+  intro cs
+  induction cs with
+  | nil => intro _; simp
+  | cons c cs ih =>
+    intro hall
+    have := List.length_pos_iff.mpr (hall c (by simp)).ne_nil
+    have := ih (fun c' hc' => hall c' (by simp [hc']))
+    simp only [chunksBytes, List.map_cons, List.flatten_cons, List.length_cons, List.length_append] at this ⊢
+    omega
+
+/-- a buffer whose first not-well-formed record is refused by `read_fields` is refused by `read_fields` -/
+theorem readFields_reject {m : MsgSchema} (hp : m.proto3 = true) (cs : List Chunk) (rest : Bytes) (e : Err)
+    (hall : ∀ c ∈ cs, RawTLV m c.num (c.vals.map (·.2)) c.bytes) (hbad : BadHead m rest e) :
+    readFields m (chunksBytes cs ++ rest) = .error e := by
+  simp only [readFields, hp, Bool.not_true, Bool.false_eq_true, if_false]
+  have h1 := chunks_length_le cs hall
+  have h2 := List.length_pos_iff.mpr hbad.ne_nil
+  obtain ⟨f, hf⟩ : ∃ f, (chunksBytes cs ++ rest).length = cs.length + (f + 1) :=
+    ⟨(chunksBytes cs).length - cs.length + rest.length - 1, by simp only [List.length_append]; omega⟩
+  rw [hf, readFieldsLoop_prefix cs (f + 1) [] rest hall, readFieldsLoop_badHead hbad]
+
+theorem canonical_reject (tbl : Table) (idx : Nat) {m : MsgSchema} (hm : tbl[idx]? = some m)
+    (hp : m.proto3 = true) (cs : List Chunk) (rest : Bytes) (e : Err)
+    (hall : ∀ c ∈ cs, RawTLV m c.num (c.vals.map (·.2)) c.bytes) (hbad : BadHead m rest e) :
+    canonical tbl idx (chunksBytes cs ++ rest) = .error e := by
+  simp [canonical, canonicalRaw, hm, readFields_reject hp cs rest e hall hbad]
+
+theorem canonical_reject_not_proto3 (tbl : Table) (idx : Nat) {m : MsgSchema} (hm : tbl[idx]? = some m)
+    (hp : m.proto3 = false) (b : Bytes) : canonical tbl idx b = .error .notProto3 := by
+  simp [canonical, canonicalRaw, hm, readFields, hp]
+
+theorem mapE_ok_all {α β : Type} (g : α → Except Err β) : ∀ (l : List α) (r : List β), mapE g l = .ok r →
+    ∀ a ∈ l, ∃ b, g a = .ok b := by
+  intro l
+  induction l with
+  | nil => intro r _ a ha; simp at ha
+  | cons x xs ih =>
+    intro r h a ha
+    simp only [mapE] at h
+    cases hgx : g x with
+    | error e => simp [hgx] at h
+    | ok c =>
+      simp only [hgx] at h
+      cases hr : mapE g xs with
+      | error e => simp [hr] at h
+      | ok cs =>
+        rcases List.mem_cons.mp ha with ha | ha
+        · exact ⟨c, by rw [ha]; exact hgx⟩
+        · exact ih cs hr a ha
+
+/-- a singular field that ends up with more than one value (two records, or a packed record with two elements) makes
+`canonical_raw` fail -/
+theorem canonical_reject_multi (tbl : Table) (idx : Nat) {m : MsgSchema} (hm : tbl[idx]? = some m)
+    (hp : m.proto3 = true) (cs : List Chunk)
+    (hall : ∀ c ∈ cs, RawTLV m c.num (c.vals.map (·.2)) c.bytes)
+    {p : Nat × List (Tree × Bytes)} (hmem : p ∈ groupPairs cs) (hlen : 1 < p.2.length)
+    {fd : FieldSchema} (hfd : m.getField p.1 = some fd) (hrep : fd.repeated = false) :
+    ∀ out, canonical tbl idx (chunksBytes cs) ≠ .ok out := by
+  intro out h
+  simp only [canonical, canonicalRaw_eq, decode, hm, readFields_chunks hp cs hall] at h
+  cases hmap : mapE (decodeEntry (decode tbl (chunksBytes cs).length) m) (mapVals (·.2) (groupPairs cs)) with
+  | error e => simp [hmap, Except.map] at h
+  | ok fs =>
+    obtain ⟨b, hb⟩ := mapE_ok_all _ _ _ hmap (p.1, p.2.map (·.2))
+      (List.mem_map.mpr ⟨p, hmem, rfl⟩)
+    simp [decodeEntry, hfd, hrep, hlen] at hb
+
+/-! ## The build-time schema restriction -/
+
+/-- what the build-time check gives for every field of every message of a table that passes it -/
+theorem supportsCanonical_field {tbl : Table} (h : supportsCanonical tbl = true) {idx : Nat} {m : MsgSchema}
+    (hm : tbl[idx]? = some m) {num : Nat} {fd : FieldSchema} (hf : m.getField num = some fd) :
+    m.proto3 = true ∧ FieldOk fd ∧ num * 8 + 7 < 2 ^ 32 ∧ (∀ k, fd.kind = .msg k → k < tbl.length) := by
+  have hmem : m ∈ tbl := List.mem_of_getElem? hm
+  simp only [supportsCanonical, List.all_eq_true, Bool.and_eq_true] at h
+  obtain ⟨⟨hc, hn⟩, hcl⟩ := h m hmem
+  simp only [MsgSchema.canonicalOk, Bool.and_eq_true, List.all_eq_true] at hc
+  simp only [MsgSchema.getField] at hf
+  have hfm : fd ∈ m.fields := List.mem_of_find?_eq_some hf
+  have hnum : fd.num = num := by have := List.find?_some hf; simpa using this
+  have hcf := hc.2 fd hfm
+  simp only [FieldSchema.canonicalOk, Bool.and_eq_true, Bool.not_eq_true', Bool.or_eq_true] at hcf
+  simp only [MsgSchema.numsOk, Bool.and_eq_true, List.all_eq_true, decide_eq_true_eq] at hn
+  have hn2 := hn.2 fd hfm
+  have hcl2 := hcl fd hfm
+  refine ⟨hc.1, ⟨hcf.1, hcf.2⟩, by omega, ?_⟩
+  intro k hk
+  simpa [FieldSchema.closedIn, hk] using hcl2
+
 end EraVerif.Proofs.Wire
